@@ -221,17 +221,24 @@ def run(ctx):
         ok3 = A.path_str(e[2][1]) == rr + ".rtype_with_data.<NS>.nsdname"
         ctx.check(ok1 and ok2 and ok3, "C06.5", "better_ns:insert#%d" % n, "NS host recorded only for an ancestor with label count >= current",
                   "an NS host is recorded without the ancestor test / the label-count comparison", g.loc(b))
+    # the "best delegation owner so far" register, found by its role: the Option the result is built from
+    # (`x.map(|mn| (mn, ns_names))`, or `Some((payload of x, ..))` after normalisation)
     mn_local = None
-    for l, nm in g.names.items():
-        if nm == "match_name":
-            mn_local = l
+    for b_, e_ in A.return_exprs(g, gr):
+        pe_ = A.peel(e_)
+        cand = None
+        if pe_[0] == "call" and pe_[1].endswith("Option::<T>::map") and pe_[2]:
+            cand = A.peel(pe_[2][0])
+        elif pe_[0] == "agg" and pe_[2] == "Some":
+            tup = A.peel(dict(pe_[3])["0"])
+            if tup[0] == "tuple" and tup[1]:
+                x0 = A.peel(tup[1][0])
+                if x0[0] == "field" and x0[2] == "0" and x0[1][0] == "downcast" and x0[1][2] == "Some":
+                    cand = A.peel(x0[1][1])
+        if cand is not None and cand[0] == "phi" and len(cand) > 2:
+            mn_local = cand[2]
     stores = []
-    if mn_local is None:
-        # fall back: the Option<DomainName> local that is the receiver of the final map()
-        for b, t in A.call_blocks(g, A.name_endswith("Option::<T>::map")):
-            pl = A.op_place(t["args"][0])
-            mn_local = _root_local(g, pl)
-    for d in g.defs().get(mn_local, []):
+    for d in g.defs().get(mn_local, []) if mn_local is not None else []:
         e = A.peel(gr._def_expr(d, 0))
         if e[0] == "agg" and e[2] == "Some":
             stores.append((d[0], e))
@@ -243,7 +250,14 @@ def run(ctx):
         ctx.check(ok1 and ok2 and ok3, "C06.5", "better_ns:match_name#%d" % n, "match name = rr.name, only on strictly greater label count for an ancestor",
                   "the delegation name can be replaced without a strictly greater label count / ancestor test", g.loc(b))
     # match_count: starts as the parameter, only raised to that label count on the Greater arm
-    mc = [l for l, nm in g.names.items() if nm == "match_count"]
+    mc = []
+    for b_, t_ in g.calls():
+        if (t_.get("callee") or "").endswith("::cmp") and len(t_["args"]) == 2:
+            ce = gr.call_expr(t_, b_)
+            if bool(Call("len", Path(rr + ".name.labels"))(ce[2][0])):
+                l_ = A.root_local(g, t_["args"][1])
+                if l_ is not None and l_ not in mc:
+                    mc.append(l_)
     if mc:
         for d in g.defs().get(mc[0], []):
             e = A.peel(gr._def_expr(d, 0))
